@@ -1,6 +1,7 @@
 """C09 - fit heuristics keep the any-fit invariant and their bin-count bounds."""
 import random
 from runtime import harness as H
+from props import _ded as D
 from runtime import t3_pack as T
 from props._domains import pack_inputs
 
@@ -21,5 +22,7 @@ def t3(rep, tier, seed):
 
 def run(rep, tier, seed):
     rep.level = "exploration"
-    rep.assume("A1", "A4", "A6", "A7", "A8")
+    rep.assume("A1", "A2", "A4", "A5", "A6", "A7", "A8")
+    D.run_contracts(rep, "C09", D.FIT, tier, with_lemmas=False)
     t3(rep, tier, seed)
+    D.link_falsifier(rep)
